@@ -524,6 +524,8 @@ pub struct RunStats {
     pub diverged_unreported: u64,
     /// FNV over every observation of the struct under test (event log digest)
     pub obs_digest: u64,
+    /// operations that were applied to a live handle, as (handle kind, index into the history)
+    pub applied: Vec<(Kind, u16)>,
     /// distinct (front, back) windows are accumulated by the caller from this list
     pub windows: Vec<(u32, u32)>,
 }
@@ -880,6 +882,7 @@ pub fn run_history(m: &'static Module, history: &[Event], opts: &ExecOpts) -> Ru
                 if ev.op.is_state_changing() {
                     stats.state_changing += 1;
                 }
+                stats.applied.push((slot.kind, step as u16));
                 if slot.seen_none && !ev.op.is_consuming() {
                     stats.exhaust_poke += 1;
                 }
